@@ -10,7 +10,7 @@ from hypothesis import strategies as st
 from .. import gen_notes as N
 from .. import gen_timing as G
 from ..core import Verdict, Violation
-from ..model_timing import TICK, Model, simfile_text
+from ..model_timing import TICK, Model, simfile_text, timing_data
 from .c11 import build_engine, frac_beat, in_domain, load_corpus_case
 
 ID = "C13"
@@ -56,8 +56,7 @@ def check(case):
         exp_notes = None
     else:
         tl = case["tl"]
-        sim = SSCSimfile(string=simfile_text(tl))
-        td = TimingData(sim)
+        td = timing_data(tl)
         if case.get("grid") is not None:
             grid = case["grid"]
         else:
@@ -116,7 +115,7 @@ def check(case):
         # time_notes again on the same TimingData object after equal-length in-place edits: must answer for the edited data
         from .c11 import edit_in_place
 
-        td_b = TimingData(SSCSimfile(string=simfile_text(tl)))
+        td_b = timing_data(tl)
         list(time_notes(nd, td_b, UnhittableNotes["DROP_NOTE"]))
         tl_b = edit_in_place(tl, td_b, "replace")
         passes.append((Model(tl_b), td_b, f"; TimingData object edited in place to {tl_b} after a first time_notes call, originally {tl}"))
@@ -233,7 +232,8 @@ def s_offtick(draw):
         bpms.append([draw(st.integers(1, max(1, t))), "240"])
         bpms = sorted({k: v for k, v in bpms}.items())
         bpms = [[k, v] for k, v in bpms]
-    tl = {"bpms": bpms, "stops": stops, "delays": delays, "warps": warps, "offset": draw(st.sampled_from(["0", "-0.009", "1.5"]))}
+    tl = {"bpms": bpms, "stops": stops, "delays": delays, "warps": warps, "offset": draw(st.sampled_from(["0", "-0.009", "1.5"])),
+          "source": draw(st.sampled_from(["ssc", "ssc", "sm", "sm-freezes", "ssc-chart"]))}
     cols = 4
     nplayers = draw(st.sampled_from([1, 2]))
     players = []
